@@ -1,5 +1,5 @@
 """C14 — A message is held by at most one consumer at a time."""
-from __future__ import annotations
+# NOTE: no `from __future__ import annotations` (the worker-level actors carry real MessageDependency annotations)
 
 import asyncio
 
@@ -209,10 +209,12 @@ async def _workers(loop, case, out: Outcome):
         r = runs.get(j["id"], [])
         if len(r) > 1:
             out.v("executed-twice", f"job {j['id']} (succeeding actor) was executed {len(r)} times: {r}", broker=case["broker"])
-        elif len(r) == 0 and loop.time() < horizon:
-            out.v("never-executed", f"job {j['id']} was never executed; places {[p.short() for p in env.probe().get(j['id'], [])]}")
-    out.nontrivial = len(case["jobs"]) >= 2
-    out.cls("broker-" + case["broker"], f"workers-{case['workers']}")
+        elif len(r) == 0:
+            out.v("never-executed", f"job {j['id']} was never executed within {horizon:.1f}s although {case['workers']} workers served its "
+                  f"queue; places {[p.short() for p in env.probe().get(j['id'], [])]}", broker=case["broker"])
+    out.nontrivial = len(case["jobs"]) >= 2 and len(runs) == len(case["jobs"]) and len({w for r in runs.values() for w, _ in r}) >= 1
+    out.cls("broker-" + case["broker"], f"workers-{case['workers']}",
+            "several-workers-executed" if len({w for r in runs.values() for w, _ in r}) >= 2 else "one-worker-executed")
 
 
 def run_workers(case: dict) -> Outcome:
@@ -324,6 +326,147 @@ def run_bulk(case: dict) -> Outcome:
     return out
 
 
+# ----------------------------------------------------------------------------- several workers, one of them stopped hard
+
+
+@st.composite
+def workers_stop_case(draw, broker):
+    """Three workers on one queue; jobs fail once and succeed on the (immediate) retry, results are stored through a slow bucket
+    broker; one worker is stopped with no graceful period at a generated instant.  Whatever that worker was doing - running the
+    actor, reporting, storing the result - no job may then be in two hands at once or succeed twice."""
+    return {"broker": broker, "seed": draw(st.integers(0, 2**16)),
+            "jobs": [{"id": f"j{i}", "dur1": draw(st.sampled_from([0.0, 0.02, 0.1])), "dur2": draw(st.sampled_from([0.2, 0.4, 0.6])),
+                      "at": draw(st.integers(0, 400)) / 1000} for i in range(draw(st.integers(1, 5)))],
+            "stop_at": draw(st.integers(1, 1500)) / 1000, "store_lat": draw(st.sampled_from([0.02, 0.05, 0.1])),
+            "tasks_limit": draw(st.sampled_from([1, 2, 1000])),
+            "lat": {f"w{i}": draw(st.lists(st.sampled_from([0.0, 0.001, 0.002]), max_size=20)) for i in range(3)}}
+
+
+async def _workers_stop(loop, case, out: Outcome):
+    import signal
+    from datetime import timedelta
+
+    from repid import BasicConverter, Connection, InMemoryBucketBroker, Job, MessageDependency, Queue, Router, Worker
+
+    reset_globals()
+    env = Env(case["broker"], loop, case["seed"])
+    spec = {j["id"]: j for j in case["jobs"]}
+    execs: dict[str, list] = {}
+
+    class SlowResults(InMemoryBucketBroker):
+        async def store_bucket(self, id_, payload):  # type: ignore[override]
+            await asyncio.sleep(case["store_lat"])
+            return await super().store_bucket(id_, payload)
+
+    workers, conns = [], []
+    shared: dict = {}
+    for i in range(3):
+        kw = {}
+        if case["broker"] == "redis":
+            kw["bucket_lat"] = [case["store_lat"] / 2] * 400
+        lat = case["lat"].get(f"w{i}") if case["broker"] != "mem" else None
+        if case["broker"] == "redis":
+            conn = env.connection(f"w{i}", lat, buckets=True, **kw)
+        else:
+            base = env.connection(f"w{i}", lat, buckets=False)
+            shared.setdefault("results", SlowResults(use_result_bucket=True))
+            conn = Connection(base.message_broker, InMemoryBucketBroker(), shared["results"])
+        await conn.connect()
+        conns.append(conn)
+        router = Router()
+
+        def make(i=i):
+            async def work(m: MessageDependency) -> int:
+                rec = {"w": f"w{i}", "t0": loop.time(), "t1": None, "end": "running", "tried": m.parameters.retries.already_tried}
+                execs.setdefault(m.key.id_, []).append(rec)
+                j = spec[m.key.id_]
+                try:
+                    if rec["tried"] == 0:
+                        if j["dur1"]:
+                            await asyncio.sleep(j["dur1"])
+                        rec["end"] = "failed"
+                        raise ValueError("first attempt fails")
+                    await asyncio.sleep(j["dur2"])
+                    rec["end"] = "succeeded"
+                    return 1
+                except asyncio.CancelledError:
+                    rec["end"] = "cancelled"
+                    raise
+                finally:
+                    rec["t1"] = loop.time()
+            return work
+
+        router.actor(make(), name="work", queue="qw", converter=BasicConverter, retry_policy=lambda n: timedelta(0))
+        workers.append(Worker(routers=[router], tasks_limit=case["tasks_limit"], graceful_shutdown_time=0.0 if i == 0 else 5.0, _connection=conn))
+    await Queue("qw", _connection=conns[1]).declare()
+
+    async def produce(j):
+        await asyncio.sleep(j["at"])
+        await Job("work", queue="qw", id_=j["id"], retries=1, store_result=True, _connection=conns[1]).enqueue()
+
+    prods = [asyncio.ensure_future(produce(j)) for j in case["jobs"]]
+    handlers, tasks = [], []
+    for w in workers:
+        tasks.append(asyncio.ensure_future(w.run()))
+        for _ in range(200):
+            await asyncio.sleep(0)
+            if loop.sig_handlers.get(int(signal.SIGTERM)):
+                break
+        handlers.append(loop.sig_handlers.pop(int(signal.SIGTERM), None))
+        loop.sig_handlers.pop(int(signal.SIGINT), None)
+
+    def fire(h):
+        if h is not None:
+            try:
+                h[0](*h[1])
+            except ValueError:
+                pass
+
+    loop.call_later(max(0.0, case["stop_at"] - loop.time()), fire, handlers[0])
+    horizon = 10.0
+    while loop.time() < horizon:
+        await asyncio.sleep(0.1)
+        if all(p.done() for p in prods) and all(any(r["end"] == "succeeded" for r in execs.get(j["id"], [])) for j in case["jobs"]):
+            break
+    await asyncio.sleep(0.8)
+    for h in handlers[1:]:
+        fire(h)
+    done, pending = await asyncio.wait(tasks, timeout=40.0)
+    for t in pending:
+        out.v("worker-stuck", "a worker did not return after the stop signal")
+        t.cancel()
+    await asyncio.gather(*prods, return_exceptions=True)
+    await asyncio.sleep(0.3)
+    for j in case["jobs"]:
+        rs = execs.get(j["id"], [])
+        wins = [r for r in rs if r["end"] == "succeeded"]
+        if len(wins) > 1:
+            out.v("executed-twice", f"job {j['id']} succeeded {len(wins)} times: {[(r['w'], round(r['t0'], 3), round(r['t1'] or -1, 3)) for r in rs]} "
+                  f"(worker w0 was stopped hard at {case['stop_at']})", broker=case["broker"], hard_stop=True)
+        for a in rs:
+            for b in rs:
+                if a is not b and a["t0"] < b["t0"] and (a["t1"] is None or b["t0"] < a["t1"] - 1e-9):
+                    out.v("double-delivery", f"job {j['id']} was being executed by {a['w']} (from {a['t0']:.3f}) when {b['w']} started it at "
+                          f"{b['t0']:.3f} (worker w0 stopped hard at {case['stop_at']})", broker=case["broker"], hard_stop=True)
+                    break
+            else:
+                continue
+            break
+    out.nontrivial = any(r["w"] == "w0" for rs in execs.values() for r in rs)
+    out.info["executions"] = {k: [(r["w"], r["tried"], r["end"]) for r in v] for k, v in execs.items()}
+    out.cls("broker-" + case["broker"], "w0-took-part" if out.nontrivial else "w0-idle")
+
+
+def run_workers_stop(case: dict) -> Outcome:
+    out = Outcome()
+    try:
+        vclock.run(lambda loop: _workers_stop(loop, case, out), max_steps=1_500_000, jitter_seed=case["seed"] + 1)
+    except (vclock.StepLimit, vclock.Deadlock) as e:
+        out.inconclusive = True
+        out.info["watchdog"] = str(e)
+    return out
+
+
 def _h(b):
     return lambda: holders_case(b)
 
@@ -353,6 +496,9 @@ CHECK = Check(
         SubCheck("bulk-mem", lambda: bulk_case("mem"), run_bulk, quick=4, thorough=120),
         SubCheck("bulk-redis", lambda: bulk_case("redis"), run_bulk, quick=3, thorough=100),
         SubCheck("bulk-amqp", lambda: bulk_case("amqp"), run_bulk, quick=3, thorough=100),
+        SubCheck("workers-stop-mem", lambda: workers_stop_case("mem"), run_workers_stop, quick=25, thorough=800),
+        SubCheck("workers-stop-redis", lambda: workers_stop_case("redis"), run_workers_stop, quick=15, thorough=500),
+        SubCheck("workers-stop-amqp", lambda: workers_stop_case("amqp"), run_workers_stop, quick=15, thorough=500),
         SubCheck("workers-mem", _w("mem"), run_workers, quick=8, thorough=300),
         SubCheck("workers-redis", _w("redis"), run_workers, quick=15, thorough=500),
         SubCheck("workers-amqp", _w("amqp"), run_workers, quick=15, thorough=500),
